@@ -358,11 +358,33 @@ func runMerge(c *Ctx, prop string) {
 	var onceBad, keepBad, takeBad []string
 	nKeep, nTake := 0, 0
 	var takeBlocks []*ssa.BasicBlock
+	// values arriving over the back edges, looking through merge phis inside the loop body
+	// (a counted loop joins the branches in its post block before jumping back)
+	type leaf struct {
+		v    ssa.Value
+		pred *ssa.BasicBlock
+	}
+	var flatten func(v ssa.Value, pred *ssa.BasicBlock, hdr *ssa.Phi, d int) []leaf
+	flatten = func(v ssa.Value, pred *ssa.BasicBlock, hdr *ssa.Phi, d int) []leaf {
+		if ph, ok := v.(*ssa.Phi); ok && ph != hdr && outer.Body[ph.Block()] && ph.Block() != outer.Header && d < 6 {
+			var out []leaf
+			for i, e := range ph.Edges {
+				out = append(out, flatten(e, ph.Block().Preds[i], hdr, d+1)...)
+			}
+			return out
+		}
+		return []leaf{{v, pred}}
+	}
+	var rLeaves []leaf
 	for i, e := range rphi.Edges {
 		pred := rphi.Block().Preds[i]
 		if !outer.Body[pred] {
 			continue // entry edge
 		}
+		rLeaves = append(rLeaves, flatten(e, pred, rphi, 0)...)
+	}
+	for _, lf := range rLeaves {
+		e := lf.v
 		call, isApp := e.(*ssa.Call)
 		if !isApp || calleeName(&call.Call) != "builtin.append" {
 			if e == rphi {
@@ -430,6 +452,7 @@ func runMerge(c *Ctx, prop string) {
 			bad = append(bad, "the remainder appended after the loop is the injected list unchanged: every matched key is appended a second time (duplicate key; each further run grows the tag)")
 		} else {
 			removed := 0
+			var remLeaves []leaf
 			for i, e := range remphi.Edges {
 				pred := remphi.Block().Preds[i]
 				if !outer.Body[pred] {
@@ -438,6 +461,10 @@ func runMerge(c *Ctx, prop string) {
 					}
 					continue
 				}
+				remLeaves = append(remLeaves, flatten(e, pred, remphi, 0)...)
+			}
+			for _, lf := range remLeaves {
+				e, pred := lf.v, lf.pred
 				if e == remphi {
 					// unchanged on this path: must not be a match path
 					for _, tb := range takeBlocks {
